@@ -129,7 +129,10 @@ def run(ctx, rep):
                 took_true = (not v or v[0] != "0") != neg
                 dep = dep or took_true
         oksub = oksub and dep
-        oksub = oksub and only_via(MN, bi, lambda x: x[0] == "call" and x[1].endswith("Node::is_dir"), True)
+        dirv = str([v["discr"] for v in prog.adt("backend::node::NodeType")["variants"] if v["name"] == "Dir"][0])
+        via_call = only_via(MN, bi, lambda x: x[0] == "call" and x[1].endswith("Node::is_dir"), True)
+        via_match = only_via(MN, bi, lambda x: x[0] == "discr" and x[1][0] in ("path", "proj") and bool(x[1][2]) and x[1][2][-1] == "node_type", dirv)
+        oksub = (oksub or via_match) and (via_call or via_match)
     rep.check("C12.e", "subtree-only-for-dir-winner", oksub, where=MN.loc(), what="merge_nodes attaches a merged subtree only if the chosen node itself is a directory" if oksub else
               "merge_nodes attaches a subtree to the chosen node without testing that THIS node is a directory: a file that wins over same-named directories gets a subtree")
     # ---- C12.f -------------------------------------------------------------------------------------
